@@ -164,3 +164,52 @@ Definition command_name (ident : bytes) (explicit : option bytes) : bytes :=
    comment becomes the group help unless group_help(..) is given explicitly *)
 Definition group_help_of (doc explicit : option bytes) : option bytes :=
   match explicit with Some e => Some e | None => doc end.
+
+(* ------------------------------------------------------------------ doc comment of an `options` / `command` type *)
+(* bpaf_derive/src/utils.rs LineIter: the doc comment is cut into blocks at DOUBLE empty lines (a single empty line
+   stays inside a block), every block trimmed at its end; top.rs split_options_help: the first block is the
+   description, the second (when not empty) the header, the rest -- joined by line breaks -- the footer; an explicit
+   descr(..) / header(..) / footer(..) annotation is kept.  Characters are code points; `trim_end` is modelled for
+   ASCII white space. *)
+Definition d_nl : N := 10%N.
+Definition d_is_ws (c : N) : bool := (c =? 32)%N || ((9 <=? c) && (c <=? 13))%N.
+
+(* str::lines *)
+Fixpoint lines_go (s : bytes) (cur : bytes) : list bytes :=
+  match s with
+  | [] => if is_nil cur then [] else [rev cur]
+  | c :: t => if (c =? d_nl)%N then rev cur :: lines_go t [] else lines_go t (c :: cur)
+  end.
+Definition rtrim (s : bytes) : bytes := rev (drop_while d_is_ws (rev s)).
+
+Fixpoint blocks_go (ls : list bytes) (prev_empty : bool) (cur : bytes) : list bytes :=
+  match ls with
+  | [] => if is_nil cur then [] else [rtrim cur]
+  | l :: t =>
+    if is_nil l then
+      if prev_empty then rtrim cur :: blocks_go t false [] else blocks_go t true cur
+    else blocks_go t false ((if prev_empty then cur ++ [d_nl] else cur) ++ l ++ [d_nl])
+  end.
+Definition doc_blocks (doc : bytes) : list bytes := blocks_go (lines_go doc []) false [].
+
+(* LineIter::rest *)
+Fixpoint join_rest (bs : list bytes) (res : bytes) : bytes :=
+  match bs with
+  | [] => res
+  | b :: t => join_rest t ((if is_nil res then res else res ++ [d_nl]) ++ b)
+  end.
+
+Definition keep_or (explicit from_doc : option bytes) : option bytes :=
+  match explicit with Some _ => explicit | None => from_doc end.
+
+(* (descr, header, footer) of the OptionParser *)
+Definition options_help (doc d h f : option bytes) : option bytes * option bytes * option bytes :=
+  match doc with
+  | None => (d, h, f)
+  | Some c =>
+    let bs := doc_blocks c in
+    let rest := join_rest (tl (tl bs)) [] in
+    (keep_or d (hd_error bs),
+     keep_or h (match tl bs with b :: _ => if is_nil b then None else Some b | [] => None end),
+     keep_or f (if is_nil rest then None else Some rest))
+  end.
